@@ -5,7 +5,10 @@
 use crate::plan::PlanTask;
 use std::path::{Path, PathBuf};
 
-pub const FIXTURE_DIR: &str = "/repo/visitor/tests/fixture";
+/// The repository's own fixtures (W1); ./check exports VERIF_REPO (default /repo).
+pub fn fixture_dir() -> String {
+    format!("{}/visitor/tests/fixture", std::env::var("VERIF_REPO").unwrap_or_else(|_| "/repo".to_string()))
+}
 
 pub struct Module {
     pub name: String,
@@ -107,13 +110,14 @@ pub fn discover(workload_dir: &str) -> Vec<Module> {
     let mut mods = vec![];
     // W1
     let mut files = vec![];
-    walk(Path::new(FIXTURE_DIR), &mut files);
+    let fixture_dir = fixture_dir();
+    walk(Path::new(&fixture_dir), &mut files);
     for p in files {
         let fname = p.file_name().unwrap().to_string_lossy().to_string();
         if fname == "input.jsx" || fname == "input.tsx" {
             let Ok(src) = std::fs::read_to_string(&p) else { continue };
             let own = std::fs::read_to_string(p.with_file_name("config.json")).ok();
-            let rel = p.strip_prefix(FIXTURE_DIR).unwrap().to_string_lossy().to_string();
+            let rel = p.strip_prefix(&fixture_dir).unwrap().to_string_lossy().to_string();
             mods.push(Module { name: format!("fixture/{rel}"), src, ts: fname.ends_with(".tsx"), own, only_own: false, as_script: false });
         }
     }
@@ -155,6 +159,11 @@ pub fn tasks(mods: &[Module]) -> Vec<PlanTask> {
             }
             for comments in [true, false] {
                 if m.as_script && !comments {
+                    continue;
+                }
+                // the rows of the covering array run with a comments store only (own / default / all / inverse /
+                // absent run both ways, and stratum gen draws option sets for comment-less hosts too)
+                if on.starts_with('c') && on.len() == 3 && !comments {
                     continue;
                 }
                 out.push(PlanTask {
